@@ -33,9 +33,9 @@ theorem mut_then_set {k : Key} {c c1 : Ctx} {r : Except Err Val} (hs : MutSpec k
     · simp only [setCache, hca] at hp; exact ents_cSet p hp
 
 /-- a mutating callback without a cache write, when the cache holds nothing for the key -/
-theorem mut_no_set {k : Key} {c c1 : Ctx} {r : Except Err Val} (hs : MutSpec k c c1 r) (hn : NoKey c.cache k) :
+theorem mut_no_set {k : Key} {c c1 : Ctx} (hs : c1.cache = c.cache ∧ Frame k c.store c1.store) (hn : NoKey c.cache k) :
     HOk k c c1 := by
-  obtain ⟨hca, hfr, _, _⟩ := hs
+  obtain ⟨hca, hfr⟩ := hs
   refine ⟨fun h => ?_, hfr, fun p hp => ?_⟩
   · rw [hca]; exact cohC_frame h hfr hn
   · rw [hca] at hp; exact Or.inl hp
@@ -97,8 +97,8 @@ theorem add_tail (c : Ctx) (k : Key) (v : Val) :
   · rename_i e c1 h; exact mut_then_set (callAdd_spec h)
   · rename_i nv c1 h; exact mut_then_set (callAdd_spec h)
 
-theorem upsert_tail (c : Ctx) (k : Key) (v : Val) (e0 : Option Val) :
-    HOk k c (match callUpsert c k v e0 with
+theorem upsert_tail (c : Ctx) (k : Key) (v : Val) (e0 : Val) :
+    HOk k c (match callUpsert c k v (some e0) with
       | (.error e, c) => ((c, Res.err e) : Ctx × Res)
       | (.ok nv, c) => (setCache c k nv, .ok nv)).1 := by
   split
@@ -156,9 +156,9 @@ theorem hUpsertThenLoad_ok (c : Ctx) (k : Key) (v : Val) : HOk k c (hUpsertThenL
   · rename_i hpk
     have hn := noKey_of_cPeek_none hpk
     split
-    · rename_i e c1 h; exact mut_no_set (callUpsert_spec h) hn
+    · rename_i e c1 h; exact mut_no_set (callUpsert_frame h) hn
     · rename_i nv c1 h
-      have h1 := mut_no_set (callUpsert_spec h) hn
+      have h1 := mut_no_set (callUpsert_frame h) hn
       split
       · rename_i e c2 h2; exact h1.trans (load_same h2)
       · rename_i cur c2 h2; exact h1.trans (load_then_set h2)
@@ -170,8 +170,8 @@ theorem hUpsertThenRenew_ok (c : Ctx) (k : Key) (v : Val) : HOk k c (hUpsertThen
   · rename_i hpk
     have hn := noKey_of_cPeek_none hpk
     split
-    · rename_i e c1 h; exact mut_no_set (callUpsert_spec h) hn
-    · rename_i nv c1 h; exact mut_no_set (callUpsert_spec h) hn
+    · rename_i e c1 h; exact mut_no_set (callUpsert_frame h) hn
+    · rename_i nv c1 h; exact mut_no_set (callUpsert_frame h) hn
 
 theorem handle_ok (cfg : Cfg) (hd : DelOk cfg) (c : Ctx) (op : Op) : HOk op.key c (handle cfg c op).1 := by
   cases op with
